@@ -71,6 +71,10 @@ type aScenario struct {
 	Ev    []aEvent
 	Plans [3]zz.FaultPlan
 	Focus string
+	// ColdStart: the camera was powered on as the stream begins - its uptime clock starts at 0 and the
+	// start-up FFC carries the time stamp 0 (so do the ones after a power cycle)
+	ColdStart bool
+	AllBorder bool // the edge border leaves no interior pixel
 }
 
 type aOpts struct {
@@ -330,6 +334,9 @@ func newAWorld(sc *aScenario, opt aOpts) *aWorld {
 	w.shadow = NewMotionDetector(mc, rc.PreviewSecs*w.cam.FPS(), w.cam)
 	w.upMs = 60000
 	w.lastFFCMs = 1000
+	if sc.ColdStart {
+		w.upMs, w.lastFFCMs = 0, 0
+	}
 	// one scenario in five without bad frames takes the ProcessFrame road
 	// (ProcessFrame serves neither the continuous nor the test recorder and cannot refuse a frame)
 	w.viaProcessFrame = opt.AllowProcessFrame && !c.Cont && verifsim.HashString(fmt.Sprintf("%+v|%d", sc.Cfg, len(sc.Ev)))%5 == 0
@@ -494,6 +501,9 @@ func (w *aWorld) exec(opt aOpts) *zz.Trace {
 				if e.Restart {
 					// the marker follows a power cycle: the telemetry clock restarted (20 s ago, with an FFC at 1 s)
 					w.upMs, w.lastFFCMs = 20000, 1000
+					if w.sc.ColdStart {
+						w.upMs, w.lastFFCMs = 0, 0
+					}
 				}
 				w.mp.Reset(w.cam)
 				w.shadow.Reset(w.cam)
